@@ -324,6 +324,9 @@ def descs_C07(tier):
     nmax = 4 if tier == "quick" else 5
     for n in range(1, nmax + 1):
         size_forms = ["none", "const1", "const2", "var", "list:" + ",".join((["2", "-", "1", "-", "3"] * 2)[:n])]
+        if n >= 3:
+            # one small clue and otherwise holes: clue-free blocks larger than every clue (seed R3C07)
+            size_forms += ["list:" + ",".join(["1"] + ["-"] * (n - 1)), "list:" + ",".join(["-"] * (n - 1) + ["1"])]
         for edges in simple_graphs(n):
             if tier == "quick" and n == 4 and len(edges) in (1, 5):
                 continue
@@ -335,7 +338,8 @@ def descs_C07(tier):
     shapes = [(1, 1), (1, 3), (2, 2)] + ([(3, 1), (2, 3), (3, 2)] if tier != "quick" else [])
     for (h, w) in shapes:
         n = h * w
-        for sf in ["none", "const2", "list:" + ",".join((["-", "2", "1", "-", "3", "-"] * 2)[:n])]:
+        for sf in ["none", "const2", "list:" + ",".join((["-", "2", "1", "-", "3", "-"] * 2)[:n])] + \
+                ([ "list:" + ",".join(["1"] + ["-"] * (n - 1))] if n >= 3 else []):
             if n <= 5:
                 yield dict(func="division_connected_variable_groups", grid=[h, w], size=sf)
             if sf != "none":
